@@ -86,8 +86,9 @@ def accept (ops : Ops Pkg) (rx : Rx Pkg) (pkg : Pkg) : Rx Pkg × List (Ev Pkg) :
     (rx, if r.2 then r.1 else r.1 ++ [.chanErr])
   | .eedInfo => (rx, [])
   | .eed =>
-    ({ rx with last := some pkg },
-      (List.range rx.nEed).map (fun i => Ev.eedHook i pkg) ++ [.deliver pkg])
+    -- delivered, but not recorded as `lastPkgRx` (repo fix "EED packages do not replace the last
+    -- received package"): the packages that follow still see the format package before it
+    (rx, (List.range rx.nEed).map (fun i => Ev.eedHook i pkg) ++ [.deliver pkg])
   | .none => ({ rx with last := some pkg }, [.deliver pkg])
 
 /-- the `for` loop of `WritePacket` after the packet was added: parse packages while possible.
